@@ -335,7 +335,9 @@ class _RawConfigParser(configparser.RawConfigParser):
     self._sections = collections.OrderedDict()
 
   def optionxform(self, option):
-    option = option.strip()
+    # Option keys are compared without regard to embedded whitespace (see _ConfigParserDict): apply the same
+    # transformation here so that duplicate detection, has_option() and look-ups agree with what is stored.
+    option = option.strip().replace(' ', '').replace('\t', '')
     return option
 
 class ConfigParser(object):
